@@ -67,10 +67,7 @@ def units(tier, seed):
 def run_case(r, seed, name, label, cfg, profile, kwlen, relation, cache=None):
     case = {'scheme': name, 'label': label, 'cfg': cfg, 'profile': profile, 'kwlen': kwlen, 'relation': relation}
     core.note_case(case)
-    kwlen = min(kwlen, sse.kw_limit(name, cfg))
-    g = det.rng(seed, "db", name, label, tuple(profile), kwlen, relation)
-    db = domains.make_db(profile, cfg.get('param_identifier_size', 8), kwlen, g, relation)
-    cfg2 = sse.finalize_cfg(name, cfg, db)
+    db, cfg2, g = sse.build_db(seed, name, label, cfg, profile, kwlen, relation)
     det.seed_case(seed, PROPERTY, name, label, tuple(profile), kwlen, relation)
     L = sse.loader(name)
     r['evaluations'] += 1
